@@ -176,6 +176,10 @@ class Program:
                 self.modules[rel] = Mod(rel, path, src, tree)
         from kfv import localnames
         from kfv import normalize
+        from kfv import inline as _inl
+        nlogp: list[str] = []
+        localnames.restore_private_names({rel: m.tree for rel, m in self.modules.items()}, _inl.known_functions(), nlogp)
+        self.normalized += nlogp
         for rel, mod in self.modules.items():
             nlog0: list[str] = []
             localnames.restore(mod.tree, rel, nlog0)
